@@ -269,6 +269,7 @@ class DeformationContext(DisplacementContext):
         return {
             **super().to_dict(),
             "pressure": self.pressure,
+            "external_stress": self.external_stress,
             "last_cell": self.last_cell,
         }
 
